@@ -57,7 +57,9 @@ func genClaimExpr(g *exprgen.G, r interface{ Intn(int) int }) string {
 		return pick("a", "b", "c", "a", "fi()", "gi()", "hi(a)", "xs[a]", "a + 1", "(a)", "len(s)", "a * b")
 	}
 	floatX := func() string { return pick("p", "q", "p", "ff()", "p + 1.5", "hf(p)") }
-	constI := func() string { return pick("0", "1", "2", "5", "7", "9", "10", "-3", "2 - 1", "(4)", "3 + 4", "0x10", "010") }
+	constI := func() string {
+		return pick("0", "1", "2", "5", "7", "9", "10", "-3", "2 - 1", "(4)", "3 + 4", "0x10", "010")
+	}
 	constF := func() string { return pick("0.5", "1.5", "2", "7.25", "-1.5", "10") }
 	var e string
 	switch n := r.Intn(100); {
